@@ -14,6 +14,7 @@ import (
 	"fmt"
 	"math/big"
 	"path/filepath"
+	"reflect"
 	"runtime"
 	"strings"
 	"sync"
@@ -28,6 +29,7 @@ import (
 	"vharness/common"
 	"vharness/coqgen"
 	"vharness/credgen"
+	"vharness/hashers"
 )
 
 func init() { common.Register("C17", Run) }
@@ -39,6 +41,8 @@ type Lookup struct {
 	Field string `json:"field"`
 	Type  string `json:"type"`
 	Route string `json:"route"` // parser | facade | facade-none
+	// NoExpect: compared with the model only (no statement of the generator about the answer)
+	NoExpect bool `json:"no_expect,omitempty"`
 }
 
 // Input is one schema (attribute) with its lookups and a credential of the type.
@@ -51,6 +55,12 @@ type Input struct {
 	Lookups []Lookup        `json:"lookups"`
 	Cred    *credgen.Spec   `json:"cred,omitempty"`
 	InModel bool            `json:"in_model"` // the claim is also evaluated in the Coq model
+	// IRIError: another term with the same @id, whose scoped context is not a map, sorts first:
+	// a lookup by IRI and claim building must both fail
+	IRIError bool `json:"iri_error,omitempty"`
+	// Prior: before anything else a claim is built from the same credential document with a SECOND
+	// document loader that serves this schema (other attribute) at the same URL and type
+	Prior *credgen.Schema `json:"prior,omitempty"`
 }
 
 type lobs struct {
@@ -84,9 +94,22 @@ type gen struct {
 	cfg  *common.Config
 	rep  *common.Report
 	env  *credgen.Env
+	env2 *credgen.Env // second loader, for Input.Prior
 	ins  []*Input
 	outs []outcome
 	mu   sync.Mutex
+
+	// ParseClaim through the facade vs the parser called directly (written as the last shard)
+	fviews []credgen.View
+	fcases []fcase
+}
+
+type fcase struct {
+	route string // parser | facade | facade-none
+	cred  int    // index into fviews
+	opts  *credgen.Opts
+	obs   cobs
+	input any
 }
 
 func doLookup(route string, field, tp string, doc []byte) (o lobs) {
@@ -153,6 +176,18 @@ func (g *gen) run(in *Input) (out outcome) {
 		doc = []byte(*in.RawDoc)
 	}
 	out.doc = doc
+	if in.Prior != nil && in.Cred != nil {
+		g.mu.Lock()
+		_ = g.env2.Register(in.Prior)
+		g.mu.Unlock()
+		pc, err := credgen.Build(*in.Cred)
+		if err != nil {
+			panic(err)
+		}
+		pr := buildClaim(&pc.VC, g.env2.Real(credgen.Opts{}))
+		out.evals++
+		out.counts = append(out.counts, "prior-claim-other-loader:"+pr.class)
+	}
 	wellFormed := in.Kind == "assign"
 	asgFor := func(tp string) [4]string {
 		if tp == in.Schema.TypeIRI && in.AsgIRI != nil {
@@ -161,7 +196,7 @@ func (g *gen) run(in *Input) (out outcome) {
 		return in.Asg
 	}
 	claimAsg := asgFor(in.Schema.TypeIRI)
-	if in.AsgIRI != nil {
+	if in.AsgIRI != nil || in.IRIError {
 		out.counts = append(out.counts, "observation-two-terms-one-iri")
 	}
 	// lookups
@@ -196,7 +231,14 @@ func (g *gen) run(in *Input) (out outcome) {
 			out.counts = append(out.counts, "observation-O3-empty-field:"+o.class)
 			continue // observation O3: the empty string is not a field path
 		}
+		if l.NoExpect {
+			continue
+		}
 		switch {
+		case wellFormed && known && in.IRIError && l.Type == in.Schema.TypeIRI:
+			if o.class != "err" {
+				fail("c17-lookup-index", fmt.Sprintf("the first term identified by %q has an array-shaped scoped context; lookup gave index %d", l.Type, o.idx), l)
+			}
 		case wellFormed && known:
 			want, named := expectedIndex(asgFor(l.Type), l.Field)
 			if named && (o.class != "ok" || o.idx != want) {
@@ -233,6 +275,10 @@ func (g *gen) run(in *Input) (out outcome) {
 		case in.Kind == "malformed":
 			if co.class != "err" {
 				fail("c17-malformed-accepted", "claim building accepted a malformed attribute", nil)
+			}
+		case in.Kind == "assign" && in.IRIError:
+			if co.class != "err" {
+				fail("c17-claim-error", "the first term identified by the type IRI has an array-shaped scoped context but a claim was built", nil)
 			}
 		case in.Kind == "assign":
 			missing := false
@@ -275,7 +321,7 @@ func (g *gen) run(in *Input) (out outcome) {
 					}
 				}
 				for _, tp := range []string{in.Schema.TypeName, in.Schema.TypeIRI} {
-					if tp == in.Schema.TypeName && in.AsgIRI != nil {
+					if tp == in.Schema.TypeName && (in.AsgIRI != nil || in.IRIError) {
 						continue // the credential's type is the IRI: the claim follows the lookup by IRI
 					}
 					o, ok := byKey[f+"\x00"+tp]
@@ -377,6 +423,15 @@ func (g *gen) assignments() {
 					}
 					in := &Input{Kind: kind, Asg: asg, Schema: s, Lookups: lookupsFor(s, fields, n%16 == 0), Cred: &sp}
 					in.InModel = g.cfg.Thorough() || n%4 == 0
+					if n%9 == 0 {
+						// the same URL and type mean something else to another loader: a merklized
+						// schema, or the assignment read backwards
+						pa := credgen.SerAttr(asg[3], asg[2], asg[1], asg[0])
+						in.Prior = &credgen.Schema{URL: s.URL, TypeName: s.TypeName, TypeIRI: s.TypeIRI, Ser: &pa, CtxShape: "map"}
+						if n%18 == 0 {
+							in.Prior.Ser = nil
+						}
+					}
 					g.ins = append(g.ins, in)
 					n++
 				}
@@ -446,6 +501,42 @@ func (g *gen) specials() {
 	for r := 0; r < 30; r++ {
 		g.ins = append(g.ins, &Input{Kind: "assign", Asg: ali.Asg, AsgIRI: ali.AsgIRI, Schema: sal, Lookups: ali.Lookups[:10]})
 	}
+	// several terms share the type's IRI: aliases without scoped context (a plain IRI string, a map with
+	// @id only), with a map-shaped scoped context carrying another attribute, with an array-shaped one;
+	// sorting before and after the type.  Terms without a scoped context are passed over.
+	shapes := []string{"", "none", "string", "map", "array"}
+	mainAsg := [4]string{"price", "", "", "name"}
+	beforeAsg := [4]string{"", "count", "", ""}
+	afterAsg := [4]string{"name", "", "", ""}
+	for _, before := range shapes {
+		for _, after := range shapes {
+			as := g.env.NewSchema(strp(credgen.SerAttr(mainAsg[0], mainAsg[1], mainAsg[2], mainAsg[3])))
+			if before != "" {
+				as.Extra = append(as.Extra, credgen.ExtraType{Name: "AaaAlias", IRI: as.TypeIRI, Shape: before, SerAttr: credgen.SerAttr(beforeAsg[0], beforeAsg[1], beforeAsg[2], beforeAsg[3])})
+			}
+			if after != "" {
+				as.Extra = append(as.Extra, credgen.ExtraType{Name: "ZzzAlias", IRI: as.TypeIRI, Shape: after, SerAttr: credgen.SerAttr(afterAsg[0], afterAsg[1], afterAsg[2], afterAsg[3])})
+			}
+			_ = g.env.Register(as)
+			in := &Input{Kind: "assign", Asg: mainAsg, Schema: as, Lookups: lookupsFor(as, fields, false), Cred: &credgen.Spec{Schema: as}, InModel: true}
+			switch before {
+			case "map":
+				in.AsgIRI = &beforeAsg
+			case "array":
+				in.IRIError = true
+			}
+			for _, tp := range []string{"AaaAlias", "ZzzAlias"} {
+				for _, f := range []string{"price", "count", "name"} {
+					in.Lookups = append(in.Lookups, Lookup{Field: f, Type: tp, Route: "parser", NoExpect: true})
+				}
+			}
+			g.ins = append(g.ins, in)
+			// repetitions (map order)
+			for r := 0; r < 4; r++ {
+				g.ins = append(g.ins, &Input{Kind: "assign", Asg: mainAsg, AsgIRI: in.AsgIRI, IRIError: in.IRIError, Schema: as, Lookups: in.Lookups[:12]})
+			}
+		}
+	}
 	// attribute that is not a string; merklized schema: no attribute at all
 	sn := g.env.NewSchema(nil)
 	sn.SerRaw = 5
@@ -467,11 +558,32 @@ type stubParser struct {
 	err   error
 	idx   int
 	calls *int
+	got   **processor.CoreClaimOptions
 }
 
 func (s stubParser) ParseClaim(ctx context.Context, c verifiable.W3CCredential, o *processor.CoreClaimOptions) (*core.Claim, error) {
 	*s.calls++
+	if s.got != nil {
+		*s.got = o
+	}
 	return s.claim, s.err
+}
+
+// sameOptions: every field, the merklizer options element by element (functions by code pointer).
+func sameOptions(a, b *processor.CoreClaimOptions) bool {
+	if a == nil || b == nil {
+		return a == b
+	}
+	if a.RevNonce != b.RevNonce || a.Version != b.Version || a.SubjectPosition != b.SubjectPosition ||
+		a.MerklizedRootPosition != b.MerklizedRootPosition || a.Updatable != b.Updatable || len(a.MerklizerOpts) != len(b.MerklizerOpts) {
+		return false
+	}
+	for i := range a.MerklizerOpts {
+		if reflect.ValueOf(a.MerklizerOpts[i]).Pointer() != reflect.ValueOf(b.MerklizerOpts[i]).Pointer() {
+			return false
+		}
+	}
+	return true
 }
 func (s stubParser) GetFieldSlotIndex(field, typeName string, schema []byte) (int, error) {
 	*s.calls++
@@ -509,10 +621,21 @@ func (g *gen) facade() {
 			if i != idx || err != e || n != 1 {
 				fail(fmt.Sprintf("GetFieldSlotIndex: facade gave (%d,%v) after %d component call(s); the parser returns (%d,%v)", i, err, n, idx, e), nil)
 			}
-			c2, err := p.ParseClaim(ctx, verifiable.W3CCredential{}, &processor.CoreClaimOptions{})
+			var got *processor.CoreClaimOptions
+			p.Parser = stubParser{claim: cl, err: e, idx: idx, calls: &n, got: &got}
+			given := &processor.CoreClaimOptions{RevNonce: uint64(idx + 2), Version: 3, SubjectPosition: "value", MerklizedRootPosition: "index", Updatable: true,
+				MerklizerOpts: []merklize.MerklizeOption{merklize.WithSafeMode(false), merklize.WithDocumentLoader(g.env.Loader)}}
+			c2, err := p.ParseClaim(ctx, verifiable.W3CCredential{}, given)
 			if c2 != cl || err != e || n != 2 {
 				fail("ParseClaim: the facade does not return what its parser returns", nil)
 			}
+			if !sameOptions(got, given) {
+				fail("ParseClaim: the parser does not receive the options the facade was given (every field, merklizer options included)", nil)
+			}
+			if _, _ = p.ParseClaim(ctx, verifiable.W3CCredential{}, nil); got != nil {
+				fail("ParseClaim: nil options do not reach the parser as nil", nil)
+			}
+			n--
 			err = p.ValidateData([]byte("{}"), []byte("{}"))
 			if err != e || n != 3 {
 				fail("ValidateData: the facade does not return what its validator returns", nil)
@@ -549,48 +672,106 @@ func (g *gen) facade() {
 	}
 	rep.Evaluations += 2
 	rep.Count("facade:loader")
-	// the real parser behind the facade: ParseClaim = ToCoreClaim
+	// the real parser behind the facade, in an environment whose contexts ONLY the loader carried by the
+	// options' MerklizerOpts can resolve (the process-wide default loader does not know these URLs):
+	// every field of the options must reach the parser
+	env3 := credgen.NewEnvIn("facade")
 	attr := credgen.SerAttr("price", "count", "name", "info.insured")
-	s := g.env.NewSchema(&attr)
-	ms := g.env.NewSchema(nil)
-	for _, sp := range []credgen.Spec{{Schema: s}, {Schema: ms, Subject: credgen.MakeDID(9)}, {Schema: s, Omit: []string{"name"}}} {
-		for _, o := range []credgen.Opts{{}, {Subject: "value", Root: "value", Upd: true, Version: 4, RevNonce: 77}, {Root: "bogus"}} {
-			c, _ := credgen.Build(sp)
-			direct := buildClaim(&c.VC, g.env.Real(o))
-			p := processor.InitProcessorOptions(&processor.Processor{}, processor.WithParser(gjson.Parser{}))
-			po := processor.CoreClaimOptions(*g.env.Real(o))
-			var via cobs
-			func() {
-				defer func() {
-					if r := recover(); r != nil {
-						via = cobs{class: "panic", msg: fmt.Sprint(r)}
+	s := env3.NewSchema(&attr)
+	ms := env3.NewSchema(nil)
+	salted := hashers.Mod{P: new(big.Int).Set(fieldQ), SaltBytes: []byte("salt"), SaltElem: big.NewInt(7), Name: "salted"}
+	type mzset struct {
+		name string
+		opts []merklize.MerklizeOption
+	}
+	sets := []mzset{
+		{"loader", []merklize.MerklizeOption{merklize.WithDocumentLoader(env3.Loader)}},
+		{"loader+hasher", []merklize.MerklizeOption{merklize.WithDocumentLoader(env3.Loader), merklize.WithHasher(salted)}},
+		{"loader+unsafe", []merklize.MerklizeOption{merklize.WithDocumentLoader(env3.Loader), merklize.WithSafeMode(false)}},
+	}
+	did := credgen.MakeDID(9)
+	creds := []credgen.Spec{{Schema: s}, {Schema: ms, Subject: did}, {Schema: s, Omit: []string{"name"}}, {Schema: ms, Subject: did, Undefined: true}, {Schema: s, Undefined: true}}
+	x := int64(1999999999)
+	creds[0].Expiration = &x
+	variants := []credgen.Opts{{}, {RevNonce: 77}, {Version: 4}, {Subject: "value"}, {Subject: "bogus"}, {Root: "value"}, {Root: "index"}, {Root: "bogus"}, {Upd: true},
+		{Subject: "value", Root: "value", Upd: true, Version: 1<<32 - 1, RevNonce: 1<<64 - 1}}
+	paths := append(credgen.FieldPaths(), "spare", "nosuch")
+	parseVia := func(route string, vc verifiable.W3CCredential, po *processor.CoreClaimOptions) (o cobs) {
+		defer func() {
+			if r := recover(); r != nil {
+				o = cobs{class: "panic", msg: fmt.Sprint(r)}
+			}
+		}()
+		var cl *core.Claim
+		var err error
+		switch route {
+		case "parser":
+			cl, err = gjson.Parser{}.ParseClaim(ctx, vc, po)
+		case "facade":
+			cl, err = processor.InitProcessorOptions(&processor.Processor{}, processor.WithParser(gjson.Parser{})).ParseClaim(ctx, vc, po)
+		default:
+			cl, err = processor.InitProcessorOptions(&processor.Processor{}).ParseClaim(ctx, vc, po)
+		}
+		if err != nil {
+			return cobs{class: "err", msg: err.Error()}
+		}
+		sl, err := credgen.Slots(cl)
+		if err != nil {
+			return cobs{class: "panic", msg: err.Error()}
+		}
+		return cobs{class: "ok", slots: sl}
+	}
+	for _, set := range sets {
+		for ci, sp := range creds {
+			c, err := credgen.Build(sp)
+			if err != nil {
+				panic(err)
+			}
+			g.fviews = append(g.fviews, env3.ViewOfWith(&c.VC, paths, set.opts))
+			vi := len(g.fviews) - 1
+			for oi, o := range variants {
+				if ci > 1 && oi%3 != 0 {
+					continue
+				}
+				o := o
+				mk := func() *processor.CoreClaimOptions {
+					return &processor.CoreClaimOptions{RevNonce: o.RevNonce, Version: o.Version, SubjectPosition: o.Subject,
+						MerklizedRootPosition: o.Root, Updatable: o.Upd, MerklizerOpts: set.opts}
+				}
+				what := map[string]any{"cred": sp, "opts": o, "merklizer_opts": set.name}
+				direct := parseVia("parser", c.VC, mk())
+				po := mk()
+				via := parseVia("facade", c.VC, po)
+				rep.Evaluations += 2
+				rep.Count("facade:parse-claim:" + set.name + ":" + via.class)
+				same := direct.class == via.class
+				if same && direct.class == "ok" {
+					for i := range direct.slots {
+						same = same && direct.slots[i].Cmp(via.slots[i]) == 0
 					}
-				}()
-				cl, err := p.ParseClaim(ctx, c.VC, &po)
-				if err != nil {
-					via = cobs{class: "err", msg: err.Error()}
-					return
 				}
-				sl, _ := credgen.Slots(cl)
-				via = cobs{class: "ok", slots: sl}
-			}()
-			rep.Evaluations += 2
-			rep.Count("facade:parse-claim:" + via.class)
-			same := direct.class == via.class
-			if same && direct.class == "ok" {
-				for i := range direct.slots {
-					same = same && direct.slots[i].Cmp(via.slots[i]) == 0
+				if direct.class == "panic" || via.class == "panic" {
+					rep.Fail("c17-panic", "ParseClaim panicked: "+direct.msg+via.msg, map[string]any{"facade": what})
+				} else if !same {
+					fail(fmt.Sprintf("ParseClaim through the facade gives %s (%s); its parser called directly with the same options gives %s (%s)", via.class, via.msg, direct.class, direct.msg), what)
 				}
+				if !sameOptions(po, mk()) {
+					rep.Fail("c17-facade-options-written", "ParseClaim changed the options it was given", map[string]any{"facade": what})
+				}
+				g.fcases = append(g.fcases, fcase{route: "parser", cred: vi, opts: &o, obs: direct, input: what},
+					fcase{route: "facade", cred: vi, opts: &o, obs: via, input: what})
 			}
-			if !same {
-				fail("ParseClaim through the facade differs from ToCoreClaim", map[string]any{"cred": sp, "opts": o})
+			none := parseVia("facade-none", c.VC, &processor.CoreClaimOptions{MerklizerOpts: set.opts})
+			rep.Evaluations++
+			if none.class != "err" {
+				fail("ParseClaim without a parser is not an error", nil)
 			}
-			if credgen.FromReal((*verifiable.CoreClaimOptions)(&po)) != o {
-				rep.Fail("c17-facade-options-written", "ParseClaim changed the options it was given", map[string]any{"cred": sp, "opts": o})
-			}
+			g.fcases = append(g.fcases, fcase{route: "facade-none", cred: vi, opts: &credgen.Opts{}, obs: none, input: map[string]any{"cred": sp, "merklizer_opts": set.name}})
 		}
 	}
 }
+
+var fieldQ, _ = new(big.Int).SetString("21888242871839275222246405745257275088548364400416034343698204186575808495617", 10)
 
 // ---------- shards ----------
 
@@ -684,7 +865,7 @@ func (g *gen) writeShards() error {
 				// agreement inside the model, on the recorded tables
 				for _, fp := range append(credgen.FieldPaths(), "spare") {
 					for _, tp := range []string{in.Schema.TypeName, in.Schema.TypeIRI} {
-						if tp == in.Schema.TypeName && in.AsgIRI != nil {
+						if tp == in.Schema.TypeName && (in.AsgIRI != nil || in.IRIError) {
 							continue // two terms share the @id: only the lookup by IRI is the claim builder's
 						}
 						as = append(as, fmt.Sprintf("mka %d %d %d %s %s %s", id, c, d, f.Str(fp), f.Str(tp), coqgen.OptLimbs(out.view.Fields[fp])))
@@ -711,14 +892,53 @@ func (g *gen) writeShards() error {
 		}
 		g.rep.Shards = append(g.rep.Shards, name)
 	}
+	if len(g.fcases) > 0 {
+		f := coqgen.NewFile("From GSP Require Import Claim.Model Claim.Run.")
+		or := credgen.NewOracles()
+		name := filepath.Join(g.cfg.OutDir, "cases_C17_facade.v")
+		var credNames, fs []string
+		for i, v := range g.fviews {
+			or.Note(v)
+			f.Add(fmt.Sprintf("Definition cr%d := %s.", i, v.Coq(f)))
+			credNames = append(credNames, fmt.Sprintf("cr%d", i))
+		}
+		for _, c := range g.fcases {
+			var ob string
+			switch c.obs.class {
+			case "ok":
+				var l []string
+				for _, x := range c.obs.slots {
+					l = append(l, coqgen.Limbs(x))
+				}
+				ob = "OClaim [" + strings.Join(l, "; ") + "]"
+			case "err":
+				ob = "OErr"
+			default:
+				ob = "OPanic"
+			}
+			rt := map[string]string{"parser": "RParser", "facade": "RFacade", "facade-none": "RFacadeNoParser"}[c.route]
+			fs = append(fs, fmt.Sprintf("mkf %d %s %d (Some (%s)) (%s)", id, rt, c.cred, c.opts.Coq(f), ob))
+			g.rep.Case(name, id, map[string]any{"facade": c.input})
+			id++
+		}
+		f.Add("Definition creds_ : list cred := [" + strings.Join(credNames, "; ") + "].")
+		f.Add("Definition oracles_ : raw_oracles := " + or.Coq(f) + ".")
+		f.Add("Definition fcases_ : list fcase := " + coqgen.List(fs) + ".")
+		f.Add("Definition M := Eval vm_compute in fmismatches oracles_ creds_ fcases_.")
+		f.Add("Print M.")
+		if err := f.Write(name); err != nil {
+			return err
+		}
+		g.rep.Shards = append(g.rep.Shards, name)
+	}
 	return nil
 }
 
 func Run(cfg *common.Config) (*common.Report, error) {
 	rep := common.NewReport("C17")
-	rep.Correspondence = "Claim.Run.lmismatches / hmismatches / amismatches: get_field_slot_index and the facade (Claim/Model.v) vs json.Parser.GetFieldSlotIndex and processor.Processor; to_core_claim vs W3CCredential.ToCoreClaim on a credential of each type; and the model's own lookup against the model's own claim on the recorded field encodings"
-	rep.Rule = "ALL 6^4 = 1296 assignments of the four data slots to {none, price, count, name, info.insured, info.since}; per assignment: lookups of the five fields, an unnamed field and the empty string by type name and by type IRI, an unknown type, the processor facade with and without parser, and the claim of a credential of that type (subject id / expiration varied); plus reordered and repeated parts, absent designated fields, 19 malformed attributes, non-string attribute, no attribute, array-shaped scoped context, sibling types sorting before/after (30 repetitions), 13 bad schema documents, stub components behind the facade. distinct = distinct (schema, lookups, credential) inputs; all are non-trivial (each reaches the attribute parser or one of the documented error points)."
-	g := &gen{cfg: cfg, rep: rep, env: credgen.NewEnv()}
+	rep.Correspondence = "Claim.Run.lmismatches / hmismatches / amismatches / fmismatches: get_field_slot_index, parser_parse_claim and the facade (Claim/Model.v) vs json.Parser.GetFieldSlotIndex / ParseClaim and processor.Processor; to_core_claim vs W3CCredential.ToCoreClaim on a credential of each type; and the model's own lookup against the model's own claim on the recorded field encodings"
+	rep.Rule = "ALL 6^4 = 1296 assignments of the four data slots to {none, price, count, name, info.insured, info.since}; per assignment: lookups of the five fields, an unnamed field and the empty string by type name and by type IRI, an unknown type, the processor facade with and without parser, and the claim of a credential of that type (subject id / expiration varied); plus reordered and repeated parts, absent designated fields, 19 malformed attributes, non-string attribute, no attribute, array-shaped scoped context, sibling types sorting before/after (30 repetitions), 13 bad schema documents, stub components behind the facade (results and the options object passed through, field by field); ParseClaim through the facade vs the parser called directly for every option field and three sets of merklizer options (a loader that alone resolves the contexts, + custom hasher, + safe mode off); for every 9th assignment a claim is first built with a second document loader that serves another schema document (merklized / the assignment read backwards) at the same URL and type. distinct = distinct (schema, lookups, credential) inputs; all are non-trivial (each reaches the attribute parser or one of the documented error points)."
+	g := &gen{cfg: cfg, rep: rep, env: credgen.NewEnv(), env2: credgen.NewEnv()}
 	merklize.SetDocumentLoader(g.env.Loader)
 	if cfg.Replay != "" {
 		return replay(cfg, g)
